@@ -422,9 +422,16 @@ func vC08TxsDump(txs []*common.VersionedTransaction) []string {
 }
 
 // vC08RandSnapshot builds a snapshot the encoder accepts. signed: 0 no, 1 yes, 2 random.
-func vC08RandSnapshot(rng *rand.Rand, signed int, maxTxs int) *common.Snapshot {
+// corner: 0 random, 1 smallest (round 0, one transaction), 2 largest (maxTxs transactions).
+func vC08RandSnapshot(rng *rand.Rand, signed int, maxTxs int, corner int) *common.Snapshot {
 	s := &common.Snapshot{Version: common.SnapshotVersionCommonEncoding, NodeId: vC08RandHash(rng), Timestamp: rng.Uint64()}
-	switch rng.Intn(5) {
+	mode := rng.Intn(5)
+	if corner == 1 {
+		mode = 0
+	} else if corner == 2 {
+		mode = 1
+	}
+	switch mode {
 	case 0:
 		s.RoundNumber = 0
 	case 1:
@@ -444,6 +451,9 @@ func vC08RandSnapshot(rng *rand.Rand, signed int, maxTxs int) *common.Snapshot {
 			n = 1 + rng.Intn(maxTxs)
 		default:
 			n = 1 + rng.Intn(4)
+		}
+		if corner == 2 {
+			n = maxTxs
 		}
 	}
 	for i := 0; i < n; i++ {
@@ -669,6 +679,18 @@ type vC08Gen struct {
 	maxExtra int
 	corpus   []vC08Built
 	bigs     []vC08Built
+	corner   int // 0 random sizes, 1 smallest inputs of every builder, 2 largest
+}
+
+// size picks a list length: the random choice n, or the bound demanded by the corner mode.
+func (g *vC08Gen) size(n, max int) int {
+	switch g.corner {
+	case 1:
+		return 0
+	case 2:
+		return max
+	}
+	return n
 }
 
 // tx returns a transaction inside the domain of the transaction codec: its
@@ -715,6 +737,7 @@ func (g *vC08Gen) txs(max int) []*common.VersionedTransaction {
 	default:
 		n = g.rng.Intn(6)
 	}
+	n = g.size(n, max)
 	res := make([]*common.VersionedTransaction, n)
 	for i := range res {
 		res[i] = g.tx()
@@ -778,7 +801,9 @@ func (g *vC08Gen) roundTrip(kind string) {
 		if !build(func() []byte { return buildAuthenticationMessage(pl) }) {
 			return
 		}
-		check = func(msg *PeerMessage, d *[]vC08Diff) { vC08Cmp(d, "Data", hex.EncodeToString(msg.Data), hex.EncodeToString(pl)) }
+		check = func(msg *PeerMessage, d *[]vC08Diff) {
+			vC08Cmp(d, "Data", hex.EncodeToString(msg.Data), hex.EncodeToString(pl))
+		}
 	case "buildSnapshotConfirmMessage":
 		wantType = PeerMessageTypeSnapshotConfirm
 		snap := vC08RandHash(rng)
@@ -818,7 +843,7 @@ func (g *vC08Gen) roundTrip(kind string) {
 		check = func(msg *PeerMessage, d *[]vC08Diff) { vC08CmpTxs(d, msg.Transactions, want) }
 	case "buildBatchSnapshotAnnouncementMessage":
 		wantType = PeerMessageTypeBatchSnapshotAnnouncement
-		s := vC08RandSnapshot(rng, 2, 255)
+		s := vC08RandSnapshot(rng, 2, 255, g.corner)
 		want := vC08SnapDump(s, true)
 		R := vC08ValidPoint(rng)
 		spend := vC08RandPriv(rng)
@@ -853,6 +878,7 @@ func (g *vC08Gen) roundTrip(kind string) {
 		default:
 			n = rng.Intn(5)
 		}
+		n = g.size(n, 255)
 		for i := 0; i < n; i++ {
 			want = append(want, vC08RandHash(rng))
 		}
@@ -884,7 +910,7 @@ func (g *vC08Gen) roundTrip(kind string) {
 		}
 	case "buildBatchFullChallengeMessage":
 		wantType = PeerMessageTypeBatchFullChallenge
-		s := vC08RandSnapshot(rng, 1, 255) // the node sends a full challenge only with the aggregated signature set
+		s := vC08RandSnapshot(rng, 1, 255, g.corner) // the node sends a full challenge only with the aggregated signature set
 		wantSnap := vC08SnapDump(s, false)
 		wantCosi := *s.Signature
 		commitment, challenge := vC08ValidPoint(rng), vC08ValidPoint(rng)
@@ -917,9 +943,9 @@ func (g *vC08Gen) roundTrip(kind string) {
 		}
 	case "buildBatchSnapshotFinalizationMessage":
 		wantType = PeerMessageTypeBatchSnapshotFinalization
-		s := vC08RandSnapshot(rng, 2, 255)
+		s := vC08RandSnapshot(rng, 2, 255, g.corner)
 		if rng.Intn(4) != 0 && s.Signature == nil {
-			s = vC08RandSnapshot(rng, 1, 255)
+			s = vC08RandSnapshot(rng, 1, 255, g.corner)
 		}
 		want := vC08SnapDump(s, true)
 		inputClass = fmt.Sprintf("round0=%v,signed=%v", s.RoundNumber == 0, s.Signature != nil)
@@ -942,6 +968,7 @@ func (g *vC08Gen) roundTrip(kind string) {
 		default:
 			n = rng.Intn(40)
 		}
+		n = g.size(n, 512)
 		h.graph = nil
 		for i := 0; i < n; i++ {
 			p := &SyncPoint{NodeId: vC08RandHash(rng), Number: rng.Uint64() >> uint(rng.Intn(64)), Hash: vC08RandHash(rng)}
@@ -986,6 +1013,7 @@ func (g *vC08Gen) roundTrip(kind string) {
 		default:
 			n = 1 + rng.Intn(12)
 		}
+		n = g.size(n, 1024)
 		var list []*crypto.Key
 		for i := 0; i < n; i++ {
 			k := g.validPoint()
@@ -1034,7 +1062,7 @@ func (g *vC08Gen) roundTrip(kind string) {
 	case "buildConsumersMessage":
 		wantType = PeerMessageTypeConsumers
 		me := &Peer{IdForNetwork: vC08RandHash(rng), consumers: &neighborMap{m: make(map[crypto.Hash]*Peer)}}
-		n := rng.Intn(5)
+		n := g.size(rng.Intn(5), 8)
 		var want []string
 		for i := 0; i < n; i++ {
 			id := vC08RandHash(rng)
@@ -1198,7 +1226,7 @@ func (g *vC08Gen) injectPoints(perClass int) {
 			}}
 		},
 		"announcement-commitment": func() built {
-			s := vC08RandSnapshot(rng, 2, 8)
+			s := vC08RandSnapshot(rng, 2, 8, 0)
 			return built{buildBatchSnapshotAnnouncementMessage(s, vC08ValidPoint(rng), vC08RandPriv(rng)), 65,
 				func(msg *PeerMessage) (crypto.Key, bool) { return msg.Commitment, true }}
 		},
@@ -1211,7 +1239,7 @@ func (g *vC08Gen) injectPoints(perClass int) {
 				func(msg *PeerMessage) (crypto.Key, bool) { return msg.Commitment, true }}
 		},
 		"full-challenge-commitment": func() built {
-			s := vC08RandSnapshot(rng, 1, 8)
+			s := vC08RandSnapshot(rng, 1, 8, 0)
 			c1, c2 := vC08ValidPoint(rng), vC08ValidPoint(rng)
 			txs := []*common.VersionedTransaction{g.tx()}
 			pl := len(s.VersionedMarshal())
@@ -1219,7 +1247,7 @@ func (g *vC08Gen) injectPoints(perClass int) {
 				func(msg *PeerMessage) (crypto.Key, bool) { return msg.Commitment, true }}
 		},
 		"full-challenge-challenge": func() built {
-			s := vC08RandSnapshot(rng, 1, 8)
+			s := vC08RandSnapshot(rng, 1, 8, 0)
 			c1, c2 := vC08ValidPoint(rng), vC08ValidPoint(rng)
 			txs := []*common.VersionedTransaction{g.tx()}
 			pl := len(s.VersionedMarshal())
@@ -1556,7 +1584,7 @@ func TestVerif_C08(t *testing.T) {
 	r.SetRule("seeded workload in four parts. A: hostile bytes for every type byte (known and unknown), lengths on and around every size guard of the parser plus random lengths, " +
 		"five fillings (random, zero, 0xff, small integers, random with codec markers / consistent length fields / valid points). " +
 		"B: every builder (authentication, confirm, request, transaction, both bundle types 0..255, announcement, commitment, transaction challenge, full challenge, response, " +
-		"finalization, graph 0..512 points, pre-commitments 0..1024, relay, consumers) on random snapshots (round 0 / references, 1..255 transactions, signed / unsigned) and structurally random transactions; " +
+		"finalization, graph 0..512 points, pre-commitments 0..1024, relay, consumers; each first on its smallest and largest inputs, then) on random snapshots (round 0 / references, 1..255 transactions, signed / unsigned) and structurally random transactions; " +
 		"the parsed fields are compared one by one with the builder inputs (own normal form, signatures against what the handle signed). " +
 		"C: for each of the five point positions the point of a built message is replaced by a valid point (must be accepted with that value) and by off-curve, non-canonical, identity, small-order and mixed-order encodings (must be rejected); " +
 		"the classes come from an independent reference on filippo.io/edwards25519. D: every truncation, append, per-position bit flip / 0x00 / 0xff of built messages and random multi-step mutations " +
@@ -1596,7 +1624,11 @@ func TestVerif_C08(t *testing.T) {
 	nb := r.N(2500, 40000)
 	for i := 0; i < nb; i++ {
 		if i < len(vC08Kinds)*3 {
+			// every builder once on its smallest inputs (empty lists, round 0), once on its
+			// largest (255 transactions, 1024 commitments, 512 points), once at random
+			g.corner = []int{1, 2, 0}[i/len(vC08Kinds)]
 			g.roundTrip(vC08Kinds[i%len(vC08Kinds)].name)
+			g.corner = 0
 			continue
 		}
 		x := rng.Intn(total)
